@@ -1,0 +1,6 @@
+//go:build js
+
+package websocket
+
+// netconn.go is shared with the Wasm build; its verification hook is a no-op there.
+func (c *Conn) vEv(ev string, a, b, d, e int64) {}
